@@ -89,6 +89,12 @@ def enumerate_states(tier):
         key = "g_%s_%s_%s_%s_%s_%s" % (deps, "_".join(w) or "0", {"": "s", "async": "a", "unsafe": "u", 'extern "C"': "e", 'unsafe extern "C"': "ue", "async unsafe": "au"}[q],
                                        r, {"": "p", "mock": "m", "mockall": "ma", "?Send": "ms"}[o], "fon" if feature else "foff")
         states.append(dict(key=key, deps=deps, word=list(w), qual=q, ret=r, opt=o, feature=feature))
+        # the same function as one of two functions of an entraited module (generic analysis is shared between the functions there)
+        if deps not in ("conc", "vconc") and (tier == "thorough" or (o in ("", "?Send") and not feature)):
+            states.append(dict(key=key.replace("g_", "gm_", 1), deps=deps, word=list(w), qual=q, ret=r, opt=o, feature=feature, cont="mod"))
+            # .. and next to a twin with the very same signature, generic parameter names included
+            if any(EXTRA[x].get("gen") for x in w) or deps in ("gi", "gw", "vg"):
+                states.append(dict(key=key.replace("g_", "gt_", 1), deps=deps, word=list(w), qual=q, ret=r, opt=o, feature=feature, cont="twin"))
     return states, len(states), dict(deps=DEPS, extra_params=list(EXTRA), word_len=maxlen, quals=QUALS, returns=list(RETS), options=OPTS)
 
 
@@ -151,7 +157,17 @@ def render(s):
     wh = " where %s" % ", ".join(P["where"]) if P["where"] else ""
     body = ("rt::yield_once().await; " if asy else "") + R["body"]
     L.append("    #[::entrait::entrait(%s)]" % ", ".join(opts))
+    inmod = s.get("cont") in ("mod", "twin")
+    if inmod:
+        L.append("    pub mod m { use super::*;")
+        if s["cont"] == "twin":
+            L.append("    pub %s fn sibling%s(%s) %s%s { %s }" % (q, g, ", ".join(P["params"]), R["ty"], wh, body))
+        else:
+            L.append("    pub fn sibling(%s) -> i64 { 0 }" % ("" if deps == "nodeps" else "deps: &impl Dep"))
     L.append("    pub %s fn f%s(%s) %s%s { %s }" % (q, g, ", ".join(P["params"]), R["ty"], wh, body))
+    if inmod:
+        L.append("    }")
+    fpath = "m::f" if inmod else "f"
     # ---- client
     conc = deps in ("conc", "vconc")
     appty = "App" if conc else "::entrait::Impl<App>"
@@ -171,7 +187,7 @@ def render(s):
     # (deny(unused_unsafe): if the fn or the method silently stopped being `unsafe`, the unsafe blocks below are rejected)
     L.append("    #[deny(unused_unsafe)] pub fn client() {")
     L.append("        let x = X(2);")
-    for name, path, is_trait in (("d", "f", False), ("t", "Tr::f", True)):
+    for name, path, is_trait in (("d", fpath, False), ("t", "Tr::f", True)):
         recv_ref = mkapp if byval else "&app"
         if RETS[s["ret"]].get("needs") == "rn":
             # the result borrows from the argument: the dependency may die first
@@ -196,7 +212,7 @@ def render(s):
         d_ptr = "%s%sfn(%s) -> %s" % (hr, qptr, ", ".join(([] if deps == "nodeps" else [recv_ptr]) + extra_ptr), R["ptr"])
         if deps == "nodeps":
             d_ptr = d_ptr.replace("for<'a> ", "").replace("for<'a, 'b> ", "for<'b> ")
-        L.append("        let _pd: %s = f;" % d_ptr)
+        L.append("        let _pd: %s = %s;" % (d_ptr, fpath))
         L.append("        let _pt: %s = <%s as Tr%s>::f;" % (t_ptr, appty, "<%s>" % ", ".join("_" for x in w if EXTRA[x].get("gen")) if any(EXTRA[x].get("gen") for x in w) else ""))
     elif asy and R["out"] is not None:
         L.append("        { let app = %s; let fut = %s; super::output_is::<%s, _>(&fut); }"
@@ -213,7 +229,7 @@ def model(s):
 
 def tags_of(s):
     t = {"deps:" + s["deps"], "qual:" + (s["qual"].replace(' "C"', "").replace(" ", "-") or "none"), "ret:" + s["ret"], "opt:" + (s["opt"] or "none"),
-         "feature:" + ("on" if s["feature"] else "off")}
+         "feature:" + ("on" if s["feature"] else "off"), "cont:" + s.get("cont", "fn")}
     return t | {"param:" + x for x in s["word"]}
 
 
